@@ -2,6 +2,7 @@ import OpusProofs.RepackMs
 import OpusProofs.RepackExtRound
 import OpusProofs.RepackInPlace
 import OpusProofs.RepackDecode
+import OpusProofs.DecSkelShift
 import OpusProofs.RepackRanges
 import OpusProofs.ExtZero
 /-
@@ -410,21 +411,13 @@ theorem move_frames_safe (sizes : List Nat) (A G F R : Bytes) (hF : F.length = s
       moveFrames (A ++ G ++ F ++ R) A.length (frameSlots (A.length + G.length) sizes) = A ++ F ++ X ++ R :=
   moveFrames_spec sizes A G F R hF
 
-/-
-  Full statement (`pad_same_decode`), NOT proved — listed in `UNPROVED`: the decoder skeleton's oracle-call
-  log is identical for `x` and `pad x` up to the shift of the frame offsets.  That needs a two-run
-  simulation through C01's `frameLoop` (oracle arguments carry frame offsets); see the partial below.
--/
-
-/-- Clause "same decoded audio" (partial): everything the decoder skeleton of C01 derives from the packet,
-    except the ADDRESS of the frame data, is identical for a valid packet `x` and `pad x`: the same frame
-    sizes in the same order, byte-identical frames, the same frame duration / mode / bandwidth / channel count
-    (the TOC differs only in the two frame-count-code bits), and hence the same return value (number of
-    samples, or error) and `last_packet_duration` of `opus_decode_native` in every decoder state, for every
-    `frame_size` and `decode_fec`.
-    MISSING for the full statement: equality of the inner oracle-call log (SILK/CELT/range-decoder calls)
-    modulo the frame-offset shift `r'.payloadOffset - r.payloadOffset`. -/
-theorem pad_same_decode_partial (bs : Bytes) (hb : BytesOk bs) (r : Parsed) (h : parseImpl false bs = .ok r)
+/-- Clause "same decoded audio", packet-level facts: everything the decoder skeleton of C01 derives from
+    the packet, except the ADDRESS of the frame data, is identical for a valid packet `x` and `pad x`: the
+    same frame sizes in the same order, byte-identical frames, the same frame duration / mode / bandwidth /
+    channel count (the TOC differs only in the two frame-count-code bits), and hence the same return value
+    (number of samples, or error) and `last_packet_duration` of `opus_decode_native` in every decoder
+    state, for every `frame_size` and `decode_fec`. -/
+theorem pad_same_packet_inputs (bs : Bytes) (hb : BytesOk bs) (r : Parsed) (h : parseImpl false bs = .ok r)
     (hfree : Ext.count ((bs.drop r.padOffset).take r.padLen) r.padLen r.count = .ok 0)
     (newLen : Int) (hge : (bs.length : Int) ≤ newLen) :
     ∃ o r', packetPad bs newLen = .ok o ∧ parseImpl false o = .ok r' ∧ r'.sizes = r.sizes ∧
@@ -432,8 +425,9 @@ theorem pad_same_decode_partial (bs : Bytes) (hb : BytesOk bs) (r : Parsed) (h :
       (∀ fs, samplesPerFrame (o.headD 0) fs = samplesPerFrame (bs.headD 0) fs) ∧
       getMode (o.headD 0) = getMode (bs.headD 0) ∧ getBandwidth (o.headD 0) = getBandwidth (bs.headD 0) ∧
       getNbChannels (o.headD 0) = getNbChannels (bs.headD 0) ∧
-      ∀ (st : DecState) (frame_size fec : Int),
-        nativeRet st (some o) o.length frame_size fec false = nativeRet st (some bs) bs.length frame_size fec false := by
+      (∀ (st : DecState) (frame_size fec : Int),
+        nativeRet st (some o) o.length frame_size fec false = nativeRet st (some bs) bs.length frame_size fec false) ∧
+      r'.count = r.count ∧ o.headD 0 / 4 = bs.headD 0 / 4 := by
   obtain ⟨o, r', hpad, _, hparse, hsl, htoc⟩ := pad_spec bs hb r h hfree newLen hge
   have hlen : ∀ (x : Bytes) (q : Parsed), BytesOk x → parseImpl false x = .ok q →
       q.sizes = (slices x q.payloadOffset q.sizes).map List.length ∧ q.toc = x.headD 0 ∧ q.count = q.sizes.length := by
@@ -481,9 +475,37 @@ theorem pad_same_decode_partial (bs : Bytes) (hb : BytesOk bs) (r : Parsed) (h :
   have ht4 : o.headD 0 / 4 = bs.headD 0 / 4 := by
     rw [← hsz.2.1, htoc, (hlen bs r hb h).2.1]
   have hc := toc_helpers_congr _ _ ht4
-  refine ⟨o, r', hpad, hparse, hsz.1, hsl, fun fs => (hc fs).1, (hc 0).2.1, (hc 0).2.2.1, (hc 0).2.2.2, ?_⟩
+  refine ⟨o, r', hpad, hparse, hsz.1, hsl, fun fs => (hc fs).1, (hc 0).2.1, (hc 0).2.2.1, (hc 0).2.2.2, ?_, hsz.2.2, ht4⟩
   intro st frame_size fec
   exact nativeRet_congr st o bs false false r' r frame_size fec hparse h ht4 hsz.2.2
+
+/-- Clause "padding gives … the same decoded audio and final range" (`pad_same_decode`, with C01's decoder
+    skeleton `Opus.DecSkel.decodeNative`, read-only): for a valid packet `x` (padding without extensions),
+    `y = pad x`, and DSP oracles that behave the same when handed the same frame bytes at the shifted
+    address (`OracleShift o1 o2 δ`, δ = difference of the two payload offsets — frames of `x` and `y` are
+    byte-identical by `pad_spec`), `opus_decode_native` on `y` returns the same value and ends in the same
+    run — same decoder state, same oracle-call counter, and the same log of inner calls (SILK, CELT,
+    range-decoder init, PCM writes) once the frame offsets recorded in the log are shifted by δ — from every
+    start run, for every `frame_size`, `decode_fec`, output pointer and soft-clip flag.  Hence the same audio
+    and the same final range. -/
+theorem pad_same_decode (bs : Bytes) (hb : BytesOk bs) (r : Parsed) (h : parseImpl false bs = .ok r)
+    (hfree : Ext.count ((bs.drop r.padOffset).take r.padLen) r.padLen r.count = .ok 0)
+    (newLen : Int) (hge : (bs.length : Int) ≤ newLen) :
+    ∃ y r', packetPad bs newLen = .ok y ∧ parseImpl false y = .ok r' ∧
+      ∀ (o1 o2 : Oracle), OracleShift o1 o2 ((r'.payloadOffset : Int) - (r.payloadOffset : Int)) →
+      ∀ (pcm : Ptr) (frame_size fec : Int) (sc : Bool) (run : Run),
+        (decodeNative o2 (some y) y.length pcm frame_size fec false sc
+            (shiftRun ((r'.payloadOffset : Int) - (r.payloadOffset : Int)) run)).ret =
+          (decodeNative o1 (some bs) bs.length pcm frame_size fec false sc run).ret ∧
+        (decodeNative o2 (some y) y.length pcm frame_size fec false sc
+            (shiftRun ((r'.payloadOffset : Int) - (r.payloadOffset : Int)) run)).run =
+          shiftRun ((r'.payloadOffset : Int) - (r.payloadOffset : Int))
+            (decodeNative o1 (some bs) bs.length pcm frame_size fec false sc run).run := by
+  obtain ⟨y, r', hpad, hparse, hsz, _, _, _, _, _, _, hcount, htoc⟩ :=
+    pad_same_packet_inputs bs hb r h hfree newLen hge
+  refine ⟨y, r', hpad, hparse, ?_⟩
+  intro o1 o2 hos pcm frame_size fec sc run
+  exact decodeNative_shift bs y false false r r' h hparse hsz.symm hcount.symm htoc.symm hos pcm frame_size fec sc run
 
 /-- `int_ranges` (extension-free paths): on every reachable state and valid range the sizes the code adds
     up lie in `[1, 61298]`; with `maxlen` any `opus_int32`, the padding arithmetic (`pad_amount`, `nb_255s`,
@@ -630,4 +652,19 @@ example : gathered (exStateX.pads.take 2) 0 1 2 = [{ id := 5, frame := 0, data :
   simp only [List.take, gathered, h]
   decide +kernel
 
-end OpusProps.C07
+/-! #### pad_same_decode: the oracle hypothesis is satisfiable, and the packet hypotheses hold for `pkA` -/
+example (d : Int) : OracleShift exOracle exOracle d :=
+  { silk := fun _ _ => rfl, celt := fun _ a => by simp [Opus.DecSkel.exOracle, CeltArgs.shiftOff], bit := fun _ _ _ => rfl, uint := fun _ _ _ => rfl }
+example : ∃ y r', packetPad pkA 9 = .ok y ∧ parseImpl false y = .ok r' ∧ r'.payloadOffset = 3 := by
+  obtain ⟨y, r', h1, h2, _⟩ := pad_same_decode pkA (by decide)
+    { toc := 0x80, count := 1, sizes := [3], payloadOffset := 1, padLen := 0, packetOffset := 4 } (by decide +kernel)
+    (count_nil 1 (by decide)) 9 (by decide)
+  have hy : packetPad pkA 9 = .ok (serialize false (outPacket 0x80 [[1, 2, 3]] 9 false true)) := by
+    have := pad_serialize { toc := 0x80, frames := [[1, 2, 3]], vbr := false, pad := none }
+      (by refine ⟨by decide, by decide, ?_, ?_, ?_, ?_, by intro pd h; cases h⟩ <;> simp [Packet.code] ) (count_nil 1 (by decide)) 9 (by decide)
+    exact this
+  rw [hy] at h1; cases h1
+  refine ⟨_, _, hy, h2, ?_⟩
+  have : parseImpl false (serialize false (outPacket 0x80 [[1, 2, 3]] 9 false true)) =
+      .ok { toc := 0x83, count := 1, sizes := [3], payloadOffset := 3, padLen := 3, packetOffset := 9 } := by decide +kernel
+  rw [this] at h2; cases h2; rfl
